@@ -718,6 +718,7 @@ UBSAN_KINDS = {0: 'add_overflow', 1: 'builtin_unreachable', 3: 'divrem_overflow'
   8: 'invalid_builtin', 10: 'load_invalid_value', 11: 'missing_return', 12: 'mul_overflow', 13: 'negate_overflow', 16: 'nonnull_arg', 17: 'nonnull_return',
   18: 'out_of_bounds', 19: 'pointer_overflow', 20: 'shift_out_of_bounds', 21: 'sub_overflow', 22: 'type_mismatch', 23: 'alignment_assumption', 24: 'vla_bound_not_positive'}
 CURFN = ['']
+DEFINED_FUNCS = set()
 STRSETS = {}
 def str_of(e):
     m = re.search(r'&(_[A-Za-z0-9_]+)', e)
@@ -775,11 +776,15 @@ def call_expr(callee, rt, fty, cargs, atypes, loc, c):
             return 'VERIF_ASMJIT_ASSERT("ASMJIT_ASSERT(%s) at %s:%d")' % (txt[:100], fil, line)
         args = ', '.join(cargs)
         if f == 'bcmp': f = 'memcmp'
+        # fault injection at the libc level: when the harness defines verif_malloc / verif_realloc / verif_free, every other
+        # function's call to the libc function is routed through it (natively the same is done with ld --wrap)
+        if f in ('malloc', 'realloc', 'free', 'calloc') and ('verif_' + f) in DEFINED_FUNCS and not CURFN[0].startswith('verif_'): f = 'verif_' + f
         return '%s(%s)' % (f, args)
     # indirect
     ft = fty or T('func', ret=rt, args=atypes, va=False)
     return '((%s)%s)(%s)' % (fnptr(ft, ''), loc(callee), ', '.join(cargs))
 
+DEFINED_FUNCS.update(cid(f[0]) for f in funcs if f[5] is not None)
 # pre-register literal/array types used everywhere by translating function bodies first into buffer
 body_out = []
 errors = []
